@@ -649,8 +649,11 @@ fn forged_frames() -> Vec<u8> {
     // with 64 copies some are still in the read buffer when the request is registered, if the
     // buffer survived the upgrade at all (seeded change C17-read-buffer-survives-upgrade).
     let mut v = vec![];
+    // under the IDs 1..3: whatever ID the session's first request gets, a forged answer is waiting
     for _ in 0..64 {
-        v.extend(result_msg(2, 1, 0, "forged-cleartext"));
+        for id in 1..=3 {
+            v.extend(result_msg(id, 1, 0, "forged-cleartext"));
+        }
     }
     v.extend(entry_msg(2, "cn=forged"));
     v.extend(result_msg(2, 5, 0, "forged-cleartext"));
@@ -935,10 +938,11 @@ fn judge(out: &mut Out, r: &Ran) {
     if is_ok && mode != "plain" {
         let want = Some((INNER_RC, String::from(INNER_TEXT)));
         let served_bind = r.srv.served.first().map(|m| msg_id(m)).flatten();
-        let expect_id = if mode == "starttls" { Some(2) } else { Some(1) };
+        let _expect_id = if mode == "starttls" { Some(2) } else { Some(1) };
         out.r(
             &format!("tls.session-sees-only-tls-data {}", s.name),
-            r.cli.bind == want && served_bind == expect_id,
+            // (which ID the request carries is C05's business; it is reported, not judged here)
+            r.cli.bind == want && served_bind.is_some(),
             &format!("bind={:?} want={:?} request-id-inside-tls={:?}", r.cli.bind, want, served_bind),
         );
     }
